@@ -57,6 +57,8 @@ def persistent_entropy(
 
     if isinstance(dgms, list) == False:
         dgms = [dgms]
+    # bar lengths are computed in floating point (unsigned integer diagrams would wrap around)
+    dgms = [np.asarray(dgm, dtype=float) for dgm in dgms]
 
     # Step 1: Remove infinity bars if keep_inf = False. If keep_inf = True, infinity value is substituted by val_inf.
 
